@@ -26,7 +26,7 @@ LEVEL = 'exploration'
 ENGINE = 'E2'
 EXHAUSTIVE = True
 RULE = ('every (geometry, naming, transform) of the stated family x atmosphere type x block order x permeability '
-        'angle x block mapping x surface assignment (6-value alphabet per column: above the top layer, = top, '
+        'angle x block mapping x route by which the options were reached x surface assignment (6-value alphabet per column: above the top layer, = top, '
         'inside layer 1, = bottom of layer 1, inside layer 2, just above the top of the bottom layer; complete product '
         'for <= 4 columns, else base + all <= k deviating columns); one case = one fromgeo call, every block and '
         'connection of the resulting grid compared with the exact reference; a case is non-trivial when the grid has '
@@ -46,6 +46,9 @@ ASSUMPTIONS = [
     'comparison tolerance 1e-9 relative against the exact reference (1e-9 absolute for a cosine that is exactly 0)',
     'refined geometries are rebuilt from their canonical (name-free, coordinate-sorted) raw data so that the set-order '
     'dependent names chosen by refine() do not enter the explored set',
+    'routes: a geometry whose atmosphere type, block order or convention was changed by plain property assignment '
+    '(or that was written and read back) is valid as the library left it - the harness makes no refreshing call after '
+    'the assignment; convention is re-assigned only 0 -> 3 (the only pair with compatible column and layer names)',
     'reference trusted: ref/geo_c04.py']
 
 XS = [1.25, 2.5, 0.75]
@@ -369,6 +372,66 @@ class Ctx(object):
         self.tilted = transform in TILTS
         self.nameclass = 'digit-columns' if naming == 'c0d' else 'std'
         self.atm_connection = R.fr(geo.atmosphere_connection)
+        self.conv0 = geo.convention
+
+    def other_order(self, order):
+        if order is None:
+            return 'dmplex' if self.dmplex_ok else 'layer_column'
+        return None
+
+    def configure(self, atm, order, angle, sidx, route):
+        """Brings the geometry to (atm, order, angle, surfaces) by the stated route and returns the
+        (geometry, reference statics) to convert.  'direct': options set, then surfaces, then the two index
+        set-up calls (what read() does).  Every other route ends with a plain property assignment (or with
+        reading a file) and nothing after it, so the announced lists are those the library itself left behind:
+          atmX   atmosphere type X first, surfaces + set-up, then geo.atmosphere_type = atm
+          fileX  the same geometry written with atmosphere type X, read back from the file, then (X != atm)
+                 geo.atmosphere_type = atm on the geometry read
+          order  the other block order first, surfaces + set-up, then geo.block_order = order
+          conv03 built under convention 0, surfaces + set-up, then geo.convention = 3"""
+        geo = self.geo
+        geo.permeability_angle = angle
+        if geo.convention != self.conv0:
+            geo.convention = self.conv0
+        self.raw.convention = self.conv0
+        if route == 'direct':
+            if geo.atmosphere_type != atm:
+                geo.atmosphere_type = atm
+            if geo.block_order != order:
+                geo.block_order = order
+            self.set_surfaces(sidx)
+            return geo, self.st
+        if route == 'order':
+            geo.atmosphere_type = atm
+            geo.block_order = self.other_order(order)
+            self.set_surfaces(sidx)
+            geo.block_order = order
+            return geo, self.st
+        if route == 'conv03':
+            if self.conv0 != 0:
+                raise core.HarnessError('route conv03 needs a geometry named under convention 0')
+            geo.atmosphere_type = atm
+            geo.block_order = order
+            self.set_surfaces(sidx)
+            geo.convention = 3
+            self.raw.convention = 3
+            return geo, self.st
+        src = int(route[-1])
+        geo.block_order = order
+        geo.atmosphere_type = src
+        self.set_surfaces(sidx)
+        if route.startswith('atm'):
+            geo.atmosphere_type = atm
+            return geo, self.st
+        if route.startswith('file'):
+            import mulgrids
+            path = os.path.join(core.scratch(), 'c04route.dat')
+            geo.write(path)
+            g2 = mulgrids.mulgrid(path)
+            if src != atm:
+                g2.atmosphere_type = atm
+            return g2, R.Static(R.extract(g2))
+        raise core.HarnessError('unknown route %r' % route)
 
     def set_surfaces(self, sidx):
         geo = self.geo
@@ -409,7 +472,7 @@ def lib_frame(tb):
     return name
 
 
-def eval_case(ctx, atm, order, angle, bmkind, sidx, stats=None):
+def eval_case(ctx, atm, order, angle, bmkind, sidx, stats=None, route='direct'):
     """Runs fromgeo on the configured geometry and evaluates every clause.
     Returns (violations [(sig, what)], outcome, nontrivial)."""
     import t2grids
@@ -424,12 +487,7 @@ def eval_case(ctx, atm, order, angle, bmkind, sidx, stats=None):
     with quiet():
         try:
             with core.timelimit(CASE_SECONDS):
-                if geo.atmosphere_type != atm:
-                    geo.atmosphere_type = atm
-                if geo.block_order != order:
-                    geo.block_order = order
-                geo.permeability_angle = angle
-                ctx.set_surfaces(sidx)
+                geo, st = ctx.configure(atm, order, angle, sidx, route)
         except core.CaseTimeout:
             add('timeout-announcing', ctx.nameclass, 'setting up the announced lists did not return')
             return out, 'timeout', True
@@ -437,7 +495,7 @@ def eval_case(ctx, atm, order, angle, bmkind, sidx, stats=None):
             import sys
             add('announcing-raises-%s@%s' % (type(e).__name__, lib_frame(sys.exc_info()[2])),
                 'names=%s' % ctx.nameclass,
-                'setting options / surfaces and rebuilding the announced lists raised %s: %s' % (type(e).__name__, e))
+                'bringing the geometry to its options / surfaces (route %s) raised %s: %s' % (route, type(e).__name__, e))
             return out, 'raised', True
         announced_b = list(geo.block_name_list)
         announced_c = list(geo.block_connection_name_list)
@@ -455,26 +513,28 @@ def eval_case(ctx, atm, order, angle, bmkind, sidx, stats=None):
                 'fromgeo raised %s: %s (announced blocks %r...)' % (type(e).__name__, e, announced_b[:4]))
             return out, 'raised', True
     surf = [R.fr(c.surface) for c in geo.columnlist]
-    blocks, conns, rockvol = R.expected(st, surf, atm, ctx.atm_connection, angle)
+    raw = st.raw
+    blocks, conns, rockvol = R.expected(st, surf, atm, R.fr(geo.atmosphere_connection), angle)
     m = (lambda n: n) if bm is None else (lambda n: bm.get(n, n))
     natm = {0: 1, 1: ctx.ncol, 2: 0}[atm]
     ac = 'atm%d' % atm
+    rc_ = '' if route == 'direct' else '|route=' + route.rstrip('012')
 
     # -- blocks: names, order
     got_b = [b.name for b in grid.blocklist]
     want_b = [m(n) for n in announced_b]
     if got_b != want_b:
-        add('block-list-differs-from-announced', '%s|%s' % (list_diff(got_b, want_b), ac),
+        add('block-list-differs-from-announced', '%s|%s%s' % (list_diff(got_b, want_b), ac, rc_),
             first_diff(got_b, want_b))
     ref_ug = [b['name'] for b in blocks]
     if sorted(announced_b[natm:]) != sorted(ref_ug):
-        add('announced-blocks-differ-from-raw-data', ac,
+        add('announced-blocks-differ-from-raw-data', ac + rc_,
             'announced %d underground blocks, raw data give %d: %s'
             % (len(announced_b) - natm, len(ref_ug),
                sorted(set(announced_b[natm:]) ^ set(ref_ug))[:6]))
     atm0 = announced_b[0] if (atm == 0 and announced_b) else None
     if atm == 1:
-        ref_atm = [R.compose_name(ctx.raw.convention, st.lname[0], c) for c in st.colnames]
+        ref_atm = [R.compose_name(raw.convention, st.lname[0], c) for c in st.colnames]
         if sorted(announced_b[:natm]) != sorted(ref_atm):
             add('announced-blocks-differ-from-raw-data', ac + '|atmosphere-blocks',
                 'announced atmosphere blocks %r, raw data %r' % (announced_b[:natm][:4], ref_atm[:4]))
@@ -485,11 +545,11 @@ def eval_case(ctx, atm, order, angle, bmkind, sidx, stats=None):
     got_c = [tuple(b.name for b in c.block) for c in grid.connectionlist]
     want_c = [(m(a), m(b)) for (a, b) in announced_c]
     if got_c != want_c:
-        add('connection-list-differs-from-announced', '%s|%s' % (list_diff(got_c, want_c), ac),
+        add('connection-list-differs-from-announced', '%s|%s%s' % (list_diff(got_c, want_c), ac, rc_),
             first_diff(got_c, want_c))
     ref_c = [(c['names'][0], c['names'][1] if c['names'][1] is not None else atm0) for c in conns]
     if sorted(announced_c) != sorted(ref_c):
-        add('announced-connections-differ-from-raw-data', '%s|%s' % (list_diff(announced_c, ref_c), ac),
+        add('announced-connections-differ-from-raw-data', '%s|%s%s' % (list_diff(announced_c, ref_c), ac, rc_),
             'announced %d connections, raw data give %d: %s'
             % (len(announced_c), len(ref_c), sorted(set(announced_c) ^ set(ref_c))[:4]))
     if set(grid.connection.keys()) != set(got_c) or \
@@ -612,14 +672,17 @@ def st_zscale(st):
 # ---------------------------------------------------------------------------------------------------------
 # the explored space
 
-def opt_product(ctx, atms, orders, angles, bmaps):
+def opt_product(ctx, atms, orders, angles, bmaps, routes=('direct',)):
     for atm in atms:
         for order in orders:
             if order == 'dmplex' and not ctx.dmplex_ok:
                 continue
             for angle in angles:
                 for bk in bmaps:
-                    yield atm, order, angle, bk
+                    for route in routes:
+                        if route == 'atm%d' % atm or (route == 'conv03' and ctx.conv0 != 0):
+                            continue
+                        yield atm, order, angle, bk, route
 
 
 RECT = [('rect', nx, ny, nz) for nz in (2, 3, 4) for ny in (1, 2, 3) for nx in (1, 2, 3)]
@@ -629,9 +692,13 @@ ALL_ORD = (None, 'dmplex')
 ALL_ATM = (0, 1, 2)
 
 
-def U(desc, naming, transform, surf, atms=ALL_ATM, orders=ALL_ORD, angles=ANGLES, bmaps=('none', 'full')):
+ROUTES = ('atm0', 'atm1', 'atm2', 'file0', 'file1', 'file2', 'order', 'conv03')
+
+
+def U(desc, naming, transform, surf, atms=ALL_ATM, orders=ALL_ORD, angles=ANGLES, bmaps=('none', 'full'),
+      routes=('direct',)):
     return {'desc': desc, 'naming': naming, 'transform': transform, 'surf': surf, 'atms': tuple(atms),
-            'orders': tuple(orders), 'angles': tuple(angles), 'bmaps': tuple(bmaps)}
+            'orders': tuple(orders), 'angles': tuple(angles), 'bmaps': tuple(bmaps), 'routes': tuple(routes)}
 
 
 def units(tier):
@@ -647,9 +714,14 @@ def units(tier):
                     nchunk = 2 if ncol == 9 else 1
                     for chunk in range(nchunk):
                         us.append(dict(U(desc, naming, 'id', mode, atms=(atm,), bmaps=bm3), chunk=(chunk, nchunk)))
-                else:
+                elif desc[3] < 4 or naming == 'lib0':
+                    # quick: the deepest shapes under one convention; dmplex (same lists as layer/column on
+                    # four-sided columns) under convention 0 only
                     mode = 'prod' if ncol <= 2 else 'k1'
-                    us.append(U(desc, naming, 'id', mode, atms=(atm,)))
+                    # and all three permeability angles there too (the direction does not depend on names)
+                    us.append(U(desc, naming, 'id', mode, atms=(atm,),
+                                orders=ALL_ORD if naming == 'lib0' else (None,),
+                                angles=ANGLES if naming == 'lib0' else (30.0,)))
         # every surface product once more at a single option setting in the quick tier
         if not thorough and 2 < ncol <= 4:
             us.append(U(desc, 'lib0', 'id', 'prod', atms=(1,), orders=(None,), angles=(0.0,), bmaps=('none',)))
@@ -660,7 +732,11 @@ def units(tier):
                 for naming in LIBN:
                     us.append(U(desc, naming, tr, 'k1'))
             elif desc[3] == 3:
-                us.append(U(desc, 'lib0', tr, 'k1', bmaps=('none',)))
+                us.append(U(desc, 'lib0', tr, 'k1', orders=(None,), bmaps=('none',)))
+        # the route by which atmosphere type, block order and convention were reached
+        for naming in (LIBN if thorough else (('lib0',) if desc[3] < 4 else ())):
+            us.append(U(desc, naming, 'id', 'k1', orders=ALL_ORD if thorough else (None,), angles=(0.0,),
+                        bmaps=('none', 'full') if thorough else ('none',), routes=ROUTES))
         # layer_column spelt out, and numeric column names under convention 0
         us.append(U(desc, 'lib0', 'id', 'k1', orders=('layer_column',), angles=(0.0,), bmaps=('none',)))
         if desc[3] == 2 or thorough:
@@ -677,6 +753,9 @@ def units(tier):
                     us.append(U(desc, naming, tr, 'k1'))
                 elif naming == 'c3':
                     us.append(U(desc, naming, tr, 'k1', bmaps=('none',)))
+            if thorough or naming == 'c0' or (naming == 'c1' and desc != ('mixr',)):
+                us.append(U(desc, naming, 'id', 'k1', orders=ALL_ORD if thorough else (None,), angles=(0.0,),
+                            bmaps=('none', 'full') if thorough else ('none',), routes=ROUTES))
         if not thorough:
             us.append(U(desc, 'c0', 'id', full, atms=(1,), orders=(None,), angles=(0.0,), bmaps=('none',)))
         us.append(U(desc, 'c0d', 'id', 'k1', orders=(None,), angles=(0.0,), bmaps=('none', 'full')))
@@ -685,8 +764,10 @@ def units(tier):
         for tr in TRANSFORMS:
             if thorough or naming == 'c0' or tr == 'id':
                 for atm in ALL_ATM:
-                    us.append(U(('g7',), naming, tr, 'base', atms=(atm,), bmaps=bm3 if thorough else ('none', 'full')))
-    for atm in ALL_ATM:
+                    us.append(U(('g7',), naming, tr, 'base', atms=(atm,), bmaps=bm3 if thorough else ('none', 'full'),
+                                angles=ANGLES if (thorough or (naming == 'c0' and tr in ('id', 'rot30'))) else (30.0,)))
+    us.append(U(('g7',), 'c0', 'id', 'base', orders=ALL_ORD, angles=(0.0,), bmaps=('none',), routes=ROUTES))
+    for atm in (ALL_ATM if thorough else (1,)):
         one = dict(atms=(atm,), orders=(None,), angles=(0.0,), bmaps=('none',))
         if thorough:
             for chunk in range(12):
@@ -698,11 +779,12 @@ def units(tier):
                 us.append(dict(U(('g7',), 'c0', 'id', 'k1', **one), chunk=(chunk, 6)))
     for desc in (('g7p',), ('g7r',)):
         for naming in (('c0', 'c2', 'c3') if thorough else ('c2',)):
-            for tr in (TRANSFORMS if thorough else ('id', 'rot30')):
-                us.append(U(desc, naming, tr, 'base', bmaps=('none', 'full')))
+            for tr in (TRANSFORMS if thorough else (('id', 'rot30') if desc == ('g7p',) else ('rot30',))):
+                us.append(U(desc, naming, tr, 'base', bmaps=('none', 'full'),
+                            angles=ANGLES if thorough else (30.0,)))
     us.append(U(('g7',), 'c0d', 'id', 'base', orders=(None,), angles=(0.0,), bmaps=('none',)))
     # shipped geometries exactly as read from their files (own names, surfaces, options)
-    for name in (('g1', 'g2', 'g3', 'g4', 'g5', 'g6', 'g7') if thorough else ('g1', 'g3', 'g5', 'g6', 'g7')):
+    for name in (('g1', 'g2', 'g3', 'g4', 'g5', 'g6', 'g7') if thorough else ('g1', 'g5', 'g7')):
         for tr in (('id', 'rot30', 'shift', 'tiltx') if thorough else ('id',)):
             for atm in ALL_ATM:
                 us.append(U(('file', name), 'file', tr, 'file', atms=(atm,), orders=(None,), angles=('file',),
@@ -710,9 +792,10 @@ def units(tier):
     return us
 
 
-def case_dict(unit, atm, order, angle, bk, sidx):
+def case_dict(unit, atm, order, angle, bk, sidx, route='direct'):
     return {'desc': list(unit['desc']), 'naming': unit['naming'], 'transform': unit['transform'], 'atm': atm,
-            'order': order, 'angle': angle, 'blockmap': bk, 'surfaces': None if sidx is None else list(sidx)}
+            'order': order, 'angle': angle, 'blockmap': bk, 'surfaces': None if sidx is None else list(sidx),
+            'route': route}
 
 
 def run_unit(unit, tier, rec):
@@ -734,14 +817,17 @@ def run_unit(unit, tier, rec):
     head = (desc, unit['naming'], unit['transform'])
     sampled = False
     for sidx in ssets:
-        for atm, order, angle, bk in opt_product(ctx, unit['atms'], unit['orders'], angles, unit['bmaps']):
-            viol, outcome, nontrivial = eval_case(ctx, atm, order, angle, bk, sidx, stats)
-            rec.case((head, atm, order, angle, bk, sidx), nontrivial=nontrivial, outcome=outcome)
+        for atm, order, angle, bk, route in opt_product(ctx, unit['atms'], unit['orders'], angles, unit['bmaps'],
+                                                        unit.get('routes', ('direct',))):
+            viol, outcome, nontrivial = eval_case(ctx, atm, order, angle, bk, sidx, stats, route)
+            rec.case((head, atm, order, angle, bk, sidx, route), nontrivial=nontrivial, outcome=outcome)
+            if route != 'direct':
+                stats['grids_route_' + route.rstrip('012')] += 1
             for sig, what in viol:
-                rec.violation(sig, what, case_dict(unit, atm, order, angle, bk, sidx))
+                rec.violation(sig, what, case_dict(unit, atm, order, angle, bk, sidx, route))
             if not sampled and sidx is not None and any(v != 1 for v in sidx):
                 sampled = True
-                rec.sample({'case': case_dict(unit, atm, order, angle, bk, sidx), 'outcome': outcome,
+                rec.sample({'case': case_dict(unit, atm, order, angle, bk, sidx, route), 'outcome': outcome,
                             'columns': ctx.ncol, 'layers': ctx.st.nlay - 1,
                             'announced_blocks': len(ctx.geo.block_name_list),
                             'announced_connections': len(ctx.geo.block_connection_name_list)})
@@ -767,7 +853,10 @@ def finalize(rec, tier):
                        (' at one option setting, <= 2 columns under every option', ', k <= 1 under every option')),
         'transforms (rot90, rot30, shift, tiltx, tilty)': 'crossed with the options, surfaces k <= 1 '
                                                           '(base surface on g7 and refinements)',
-        'shipped geometries as read': 'g1..g7 (also rotated 30, shifted, tilted)' if tier == 'thorough' else 'g1, g3, g5, g6, g7'}}
+        'shipped geometries as read': 'g1..g7 (also rotated 30, shifted, tilted)' if tier == 'thorough' else 'g1, g5, g7',
+        'route to the final atmosphere type / block order / convention': 'direct | assigned from each other type | '
+        'written with each type, read back, assigned | other block order then assigned | convention 0 then 3 assigned; '
+        'crossed with atmosphere type x surfaces k <= 1 on the rectangular and hand-made meshes (base surface on g7)'}}
 
 
 def replay(case):
@@ -777,21 +866,26 @@ def replay(case):
         return []
     sidx = case['surfaces']
     viol, outcome, nontrivial = eval_case(ctx, case['atm'], case['order'], case['angle'], case['blockmap'],
-                              None if sidx is None else tuple(sidx))
+                                          None if sidx is None else tuple(sidx), None, case.get('route', 'direct'))
     return viol
 
 
 BOUNDS = {
-    'quick': {'rectangular': '27 shapes x 4 conventions x 3 atmosphere types x {None, dmplex} x 3 angles x {no map, full map}; '
-                             'surfaces 6^n for n <= 2, k <= 1 otherwise; 6^n (n <= 4) and k <= 2 (nz = 3) at one option setting',
+    'quick': {'rectangular': '27 shapes x 3 atmosphere types x {no map, full map}: convention 0 x {None, dmplex} x 3 angles; '
+                             'conventions 1..3 (nz <= 3) x None x angle 30; surfaces 6^n for n <= 2, k <= 1 otherwise; '
+                             '6^n (n <= 4) and k <= 2 (nz = 3) at one option setting',
               'transforms': 'nz = 3 shapes and the hand-made meshes, one convention, k <= 1',
+              'routes': 'nz <= 3 shapes (convention 0), mix / tq (conventions 0, 1), mix refined (0): 8 routes x 3 atmosphere '
+                        'types x k <= 1; g7 base surface',
               'irregular': 'mix (6 columns), tq (4 columns), mix refined (12 columns): k <= 1 under every option, '
-                           'k <= 2 / 6^4 / connected pairs at one setting; g7: base under every option, k <= 1 per atmosphere type; '
+                           'k <= 2 / 6^4 / connected pairs at one setting; g7: base under the options, k <= 1 at atmosphere type 1; '
                            'g7 refined (all / part): base',
-              'files': 'g1, g3, g5, g6, g7 x 3 atmosphere types'},
+              'files': 'g1, g5, g7 x 3 atmosphere types'},
     'thorough': {'rectangular': '27 shapes x 4 conventions x 3 atmosphere types x {None, dmplex} x 3 angles x {no map, full, partial}; '
                                 'surfaces 6^n for n <= 4, k <= 2 for 6 and 9 columns',
                  'transforms': 'every shape x 4 conventions x all options, k <= 1',
+                 'routes': 'every rectangular shape x 4 conventions, mix / tq / mix refined x 4 conventions: 8 routes x 3 atmosphere '
+                           'types x {None, dmplex} x {no map, full} x k <= 1; g7 base surface',
                  'irregular': 'mix k <= 2, tq 6^4, mix refined connected pairs, under every option; g7: base under every option and '
                               'transform, connected pairs (k <= 2) per atmosphere type; g7 partly refined k <= 1; g7 refined base',
                  'files': 'g1..g7 x {as read, rotated 30, shifted, tilted} x 3 atmosphere types x {no map, full map}'}}
